@@ -105,6 +105,24 @@ def gen_instance(rng, sim=False):
     start = rng.choice([0, 86400 * rng.randint(0, 6000), rng.randint(0, 10 ** 8)])
     dts = [start + i * d for i in range(n)]
     k0 = rng.choice([0, 0, rng.randrange(n - 1), rng.randrange(n - 1)])
+    if not sim and rng.random() < 0.4:
+        # non-equidistant import stamps; half of them with a horizon whose FIRST step equals its MEAN step
+        # (an end-point test would take such a horizon for equidistant)
+        unit = rng.choice([1800, 3600])
+        if rng.random() < 0.5:
+            steps = rng.choice([[2, 1, 3], [2, 1, 3, 2], [2, 3, 1], [3, 1, 5, 3], [2, 1, 2, 3]])
+        else:
+            steps = [rng.choice([1, 2, 3, 5]) for _ in range(rng.randint(2, 4))]
+            if len(set(steps)) == 1:
+                steps[-1] += 1
+        k0 = rng.choice([0, 0, 1, 2])
+        before = [rng.choice([1, 2, 4]) for _ in range(k0)]
+        dts = [start]
+        for g in before + steps:
+            dts.append(dts[-1] + g * unit)
+        n = len(dts)
+        d = None
+    last_gap = (dts[k0] - dts[k0 - 1]) if k0 > 0 else 0
     E = 1 if sim else rng.choice([1, 1, 2, 3])
     members = []
     delta0 = rng.choice([0.0, 0.1, -0.2])
@@ -119,7 +137,7 @@ def gen_instance(rng, sim=False):
         x0 = round(rng.uniform(-2, 2), 3)
         xvals = [round(rng.uniform(-2, 2), 3) if i < k0 else (x0 if i == k0 else NAN) for i in range(n)]
         if k0 > 0:  # keep the initial derivative implied by the history within reach of the control bounds
-            xvals[k0 - 1] = round(x0 - delta0 * d / 3600.0, 6)
+            xvals[k0 - 1] = round(x0 - delta0 * last_gap / 3600.0, 6)
         s = {"c": cvals, "x": xvals}
         if sim:
             s["u"] = [round(rng.uniform(-1, 1), 3) for _ in range(n)]
@@ -391,6 +409,8 @@ def stream_backends(c, N, tmp):
                     inp, out = make_nc_folder(root, inst)
                     cls = Nc
                 p = cls(model_name="M", model_folder=mo, input_folder=inp, output_folder=out)
+                if inst["d"] is None:
+                    p.csv_equidistant = False
                 if backend != "pi":
                     p.t0_index = k0
                 with quiet_fd():
@@ -411,7 +431,11 @@ def stream_backends(c, N, tmp):
             r = call(real)
             shutil.rmtree(root, ignore_errors=True)
             runs[backend] = r
-            c.count(("backend", backend, len(dts), k0, E, inst["u_Max"] is not None))
+            steps = [b - a for a, b in zip(dts[k0:], dts[k0 + 1:])]
+            kind = "equidistant" if inst["d"] is not None else (
+                "nonequidistant, first step = mean step" if steps[0] * len(steps) == sum(steps) else "nonequidistant")
+            c.count(("backend", backend, len(dts), k0, E, inst["u_Max"] is not None, kind))
+            c.hit("backends/%s %s" % (backend, kind))
             c.hit("backends/%s %s" % (backend, "t0 first" if k0 == 0 else "t0 inside"))
             c.hit("backends/E=%d" % E)
         cases.append((case, runs))
